@@ -630,7 +630,9 @@ ares_status_t ares_sysconfig_parse_resolv_line(const ares_channel_t *channel,
                                                ares_buf_t           *line)
 {
   char          option[32];
-  char          value[512];
+  char         *value = NULL; /* as long as the line is: a search list has no
+                               * fixed maximum length */
+  size_t        value_len;
   ares_status_t status = ARES_SUCCESS;
 
   /* Ignore lines beginning with a comment */
@@ -653,14 +655,22 @@ ares_status_t ares_sysconfig_parse_resolv_line(const ares_channel_t *channel,
 
   ares_buf_consume_whitespace(line, ARES_TRUE);
 
-  status = buf_fetch_string(line, value, sizeof(value));
+  value_len = ares_buf_len(line) + 1;
+  value     = ares_malloc(value_len);
+  if (value == NULL) {
+    return ARES_ENOMEM;
+  }
+
+  status = buf_fetch_string(line, value, value_len);
   if (status != ARES_SUCCESS) {
-    return ARES_SUCCESS;
+    status = ARES_SUCCESS;
+    goto done;
   }
 
   ares_str_trim(value);
   if (*value == 0) {
-    return ARES_SUCCESS;
+    status = ARES_SUCCESS;
+    goto done;
   }
 
   /* At this point we have a string option and a string value, both trimmed
@@ -692,6 +702,8 @@ ares_status_t ares_sysconfig_parse_resolv_line(const ares_channel_t *channel,
     status = ares_sysconfig_set_options(sysconfig, value);
   }
 
+done:
+  ares_free(value);
   return status;
 }
 
